@@ -923,3 +923,10 @@ func (w *World) AddAltLabels(tok int, rf *argmapper.Func) {
 	}
 	w.Ledger[tok] = org
 }
+
+// RegisterInput enters a caller-supplied value into the ledger.
+func (w *World) RegisterInput(in Input) {
+	w.mu.Lock()
+	defer w.mu.Unlock()
+	w.Ledger[in.Tok] = Origin{Input: true, L: in.L, Dyn: in.L.Type}
+}
